@@ -53,7 +53,9 @@ class C02(Property):
             "and |d| ≥ EPSILON comes back exactly — hypotheses on the value; when the map has no expected length the computed curve length is written and comes back as Some(length): the "
             "oracle's none ≡ some(natural length) reading), repeat_count + 2 node sample lists and velocity 1 (set later by the map-level processing). node_samples_rt: names and banks of a node "
             "list in the decoder's own shape (Normal with a bank, then finish/whistle/clap sharing a bank) come back; a node's custom file name is not written (finding F18). The written "
-            "length must be representable and within ±131072",
+            "length must be representable and within ±131072 — a forced hypothesis and a real defect: replayed on the code, a slider without a length field whose computed curve is longer "
+            "than 131072 (`0,0,1000,2,0,L|131072:131072|-131072:-131072|131072:131072,1`) is written with that length and the line is rejected on re-read (object lost; not reached by the "
+            "generators; reported, not yet in known_findings.json)",
         "roundtrip": "NOT yet theorems (only `def roundtrip_statement : Prop`, `def hitobjects_roundtrip_statement : Prop`): that every object of a DECODED map is representable in the sense of "
             "RepCircle / RepSlider / RepSpinner / RepHold (outside F17/F18), the assembly over all objects of a map and the map-level processing after the lines, timing points and the "
             "effective SV/kiai/scroll timelines (layer 5 of DESIGN 5.2), and therefore the property as a whole. These are evaluated on the implementation by the `rt` oracle "
